@@ -181,6 +181,38 @@ func check(r rec) (vs []engine.Violation, nComplaints int, addsDefaults bool) {
 	case len(want) != len(errs):
 		mk("different-number-of-complaints:"+r.label()+":"+kinds(want)+shapeKey(r), fmt.Sprintf("expected %d %v, got %d %v", len(want), want, len(errs), errs))
 	}
+	// ---- the other ways into the validation: the same verdict through ValidateSchemaWithLog and through
+	// a SchemaValidator; and the four validation types partition the complaints (state-only s,
+	// config-only c, unconditional u): |all| = s+c+u, |state| = s+u, |config| = c+u, |none| = u, hence
+	// |all| + |none| = |state| + |config| for every schema and tree
+	if p == nil {
+		count := func(f func() []error) (n int) {
+			defer func() {
+				if recover() != nil {
+					n = -1
+				}
+			}()
+			return len(f())
+		}
+		node := func() datanode.DataNode { return r.Data.node() }
+		withLog := count(func() []error { _, e, _ := schema.ValidateSchemaWithLog(ms, node()); return e })
+		sv := func(vt schema.ValidationType) int {
+			return count(func() []error {
+				_, e, _ := schema.NewSchemaValidator(ms, node()).SetValidation(vt).Validate()
+				return e
+			})
+		}
+		dflt := count(func() []error { _, e, _ := schema.NewSchemaValidator(ms, node()).Validate(); return e })
+		all, st, cf, none := sv(schema.ValidateAll), sv(schema.ValidateState), sv(schema.ValidateConfig), sv(schema.DontValidate)
+		switch {
+		case withLog != len(errs) || dflt != len(errs) || all != len(errs):
+			mk("validation-entry-points-disagree:"+r.label()+shapeKey(r), fmt.Sprintf("ValidateSchema %d complaints, ValidateSchemaWithLog %d, SchemaValidator default %d, SchemaValidator ValidateAll %d (-1: panic)", len(errs), withLog, dflt, all))
+		case st < 0 || cf < 0 || none < 0:
+			mk("panic-in-validate:validation-type:"+r.label(), fmt.Sprintf("state %d config %d none %d (-1: panic)", st, cf, none))
+		case all+none != st+cf || st > all || cf > all || none > st || none > cf:
+			mk("validation-types-do-not-partition-the-complaints:"+r.label()+shapeKey(r), fmt.Sprintf("ValidateAll %d, ValidateState %d, ValidateConfig %d, DontValidate %d", all, st, cf, none))
+		}
+	}
 	// ---- defaults
 	var wantTree, gotTree, gotTwice, orig []string
 	dec := decorate(kids, r.Data)
@@ -279,12 +311,14 @@ func runGenerated(c *engine.Ctx) {
 		runGeneratedBound(c, 4, 1, 4, "shared")  // ... and the 4-node schemas with trees of <= 1 node
 		runGeneratedBound(c, 3, 4, 0, "typedef") // defaults that come from a typedef
 		runGeneratedBound(c, 3, 4, 0, "state")   // every top-level node config false
+		runGeneratedBound(c, 3, 4, 0, "mixed")   // config true at the top, config false one level down
 		return
 	}
 	runGeneratedBound(c, 4, 6, 0, "")
 	runGeneratedBound(c, 4, 5, 0, "shared")
 	runGeneratedBound(c, 4, 5, 0, "typedef")
 	runGeneratedBound(c, 4, 5, 0, "state")
+	runGeneratedBound(c, 4, 5, 0, "mixed")
 }
 
 func schemaCost(kids []*S) int {
@@ -312,6 +346,8 @@ func runGeneratedBound(c *engine.Ctx, sb, db, onlyCost int, shared string) {
 			kids = WithTypedefDefaults(kids)
 		case "state":
 			kids = WithConfigFalse(kids)
+		case "mixed":
+			kids = WithStateBelowTop(kids)
 		}
 		if c.Expired() {
 			return
